@@ -241,6 +241,17 @@ func checkC03(w *World, r *Report) {
 		// no argument: the closure must not read the scope cell at all (checked above) - otherwise nothing to add
 	}
 	ruleObject(m, r, e, reg)
+	r.rule("C03.panic-conversion", "every adapter of the reflective binder starts with a deferred handler that calls recover() itself and converts the panic into an error that wraps the original (so a panicking builtin is delivered to catch like a returned error)")
+	nad := 0
+	extSig := w.ByPath[modPath+"/types"].Types.Scope().Lookup("ExternalCall").Type().Underlying().(*types.Signature)
+	for _, f := range w.addrTaken() {
+		if fnPkgPath(f) == modPath+"/lib/call" && sameParamsResults(f.Signature, extSig) && !isTestFunc(w, f) {
+			nad++
+			_, ok := w.barrierOf(f)
+			r.check(ok, "C03.panic-conversion", f, "binder adapter", f.Pos(), "defer of a function that calls recover() directly", "the deferred function does not call recover() itself (recover only works in the deferred function): a panicking builtin is not converted into an error")
+		}
+	}
+	r.floor("C03.panic-conversion", "binder adapters", nad, 6)
 	ruleWrap(w, r)
 	rulePropagate(m, r)
 }
@@ -342,7 +353,19 @@ func ruleObject(m *evalModel, r *Report, e *Engine, reg map[*ssa.BasicBlock]bool
 							}
 						case *ssa.MakeInterface:
 							if c, ok := x.X.(*ssa.Call); ok && c.Call.IsInvoke() && c.Call.Method.Name() == "Error" {
-								hasMsg = true
+								// the message is used only when the error has no ErrorValue method: the block is
+								// entered exclusively through the not-ok edge of the comma-ok assertion
+								for _, d := range m.EVAL.Blocks {
+									iff := blockIf(d)
+									if iff == nil {
+										continue
+									}
+									if ex, ok := iff.Cond.(*ssa.Extract); ok && ex.Index == 1 {
+										if ta, ok := ex.Tuple.(*ssa.TypeAssert); ok && ta.CommaOk && edgeDominates(d, 1, c.Block()) && len(c.Block().Preds) == 1 {
+											hasMsg = true
+										}
+									}
+								}
 							}
 						}
 					}
@@ -592,6 +615,7 @@ func checkC08(w *World, r *Report) {
 		r.check(okc, "C08.iter", m.EVAL, "evaluating call before the dispatch: "+ec.callee.Name(), ec.call.Pos(), "macro expansion / non-list evaluation / stepping continuation", "the evaluator recurses before dispatching: every iteration of a tail loop adds a host frame")
 	}
 	r.floor("C08.iter", "evaluating calls before the dispatch", n, 3)
+	macroTailRule(w, r, "C08.lisp")
 	// informational: defers inside the loop
 	for _, b := range m.EVAL.Blocks {
 		for _, in := range b.Instrs {
@@ -1356,7 +1380,8 @@ func checkC18(w *World, r *Report) {
 	}
 	sort.Strings(missing)
 	r.check(len(declared) >= 4 && len(missing) == 0, "C18.enum", m.EVAL, "command switch", token.NoPos, fmt.Sprintf("all %d declared commands handled", len(declared)), "commands without a case (reach the panic): "+strings.Join(missing, ","))
-	r.Assumptions = append(r.Assumptions, "the callback itself does not touch interpreter state; output produced by the stepper (ANSWER:/ERROR: lines) is an effect of the debugger, not of the program; the interactive debugger package is outside")
+	engineRule(w, r, e)
+	r.Assumptions = append(r.Assumptions, "host-supplied callbacks other than the repository's own debugger engine do not touch interpreter state; output produced by the stepper (ANSWER:/ERROR: lines) is an effect of the debugger, not of the program")
 }
 
 func firstBlock(fn *ssa.Function) *ssa.BasicBlock {
@@ -1388,4 +1413,149 @@ func okLocalStore(st *ssa.Store) bool {
 		return a.Comment == "varargs" || a.Comment == "complit"
 	}
 	return false
+}
+
+
+// engineRule (C18.engine): the repository's own interactive engine (package debugger) evaluates only what the
+// user typed (watch expressions read from strings); the form it is handed by the evaluator never flows into
+// an evaluating call - evaluating (or macro-expanding) it a second time would duplicate its effects.
+func engineRule(w *World, r *Report, e *Engine) {
+	r.rule("C18.engine", "in package debugger the form handed to the Stepper callback never flows into the form argument of EVAL / REPL / Apply (the engine evaluates only expressions the user typed)")
+	var stepper *ssa.Function
+	for _, fn := range w.pkgFuncs("debugger") {
+		if fn.Name() == "Stepper" && fn.Signature.Recv() != nil {
+			stepper = fn
+		}
+	}
+	if stepper == nil {
+		r.undecided("C18.engine", nil, "debugger.Stepper", token.NoPos, "method no longer resolves")
+		return
+	}
+	tainted := map[*ssa.Parameter]bool{}
+	for _, p := range stepper.Params {
+		if isMalType(p.Type()) {
+			tainted[p] = true
+		}
+	}
+	var derives func(v ssa.Value, depth int, seen map[ssa.Value]bool) bool
+	derives = func(v ssa.Value, depth int, seen map[ssa.Value]bool) bool {
+		if depth > 10 || seen[v] {
+			return false
+		}
+		seen[v] = true
+		switch x := v.(type) {
+		case *ssa.Parameter:
+			return tainted[x]
+		case *ssa.MakeInterface:
+			return derives(x.X, depth+1, seen)
+		case *ssa.ChangeInterface:
+			return derives(x.X, depth+1, seen)
+		case *ssa.TypeAssert:
+			return derives(x.X, depth+1, seen)
+		case *ssa.Extract:
+			return derives(x.Tuple, depth+1, seen)
+		case *ssa.Field:
+			return derives(x.X, depth+1, seen)
+		case *ssa.Phi:
+			for _, op := range x.Edges {
+				if derives(op, depth+1, seen) {
+					return true
+				}
+			}
+		case *ssa.Slice:
+			return derives(x.X, depth+1, seen)
+		case *ssa.Alloc:
+			// anything stored into the local (fields, elements, whole value)
+			for _, ref := range *x.Referrers() {
+				switch u := ref.(type) {
+				case *ssa.Store:
+					if u.Addr == ssa.Value(x) && derives(u.Val, depth+1, seen) {
+						return true
+					}
+				case *ssa.FieldAddr:
+					for _, r2 := range *u.Referrers() {
+						if st, ok := r2.(*ssa.Store); ok && st.Addr == ssa.Value(u) && derives(st.Val, depth+1, seen) {
+							return true
+						}
+					}
+				case *ssa.IndexAddr:
+					for _, r2 := range *u.Referrers() {
+						if st, ok := r2.(*ssa.Store); ok && st.Addr == ssa.Value(u) && derives(st.Val, depth+1, seen) {
+							return true
+						}
+					}
+				}
+			}
+		case *ssa.UnOp:
+			return derives(x.X, depth+1, seen)
+		case *ssa.FieldAddr:
+			return derives(x.X, depth+1, seen)
+		case *ssa.IndexAddr:
+			return derives(x.X, depth+1, seen)
+		case *ssa.Call:
+			// constructors such as NewList / L-notation helpers: tainted when an argument is
+			for _, a := range x.Call.Args {
+				if derives(a, depth+1, seen) {
+					return true
+				}
+			}
+		}
+		return false
+	}
+	// propagate to parameters of the package's own functions
+	for changed := true; changed; {
+		changed = false
+		for _, fn := range w.pkgFuncs("debugger") {
+			for _, b := range fn.Blocks {
+				for _, in := range b.Instrs {
+					ci, ok := in.(ssa.CallInstruction)
+					if !ok {
+						continue
+					}
+					callee := ci.Common().StaticCallee()
+					if callee == nil || fnPkgPath(callee) != modPath+"/debugger" {
+						continue
+					}
+					for i, a := range ci.Common().Args {
+						if i < len(callee.Params) && !tainted[callee.Params[i]] && derives(a, 0, map[ssa.Value]bool{}) {
+							tainted[callee.Params[i]] = true
+							changed = true
+						}
+					}
+				}
+			}
+		}
+	}
+	n := 0
+	for _, fn := range w.pkgFuncs("debugger") {
+		for _, b := range fn.Blocks {
+			for _, in := range b.Instrs {
+				c, ok := in.(*ssa.Call)
+				if !ok {
+					continue
+				}
+				callee := c.Call.StaticCallee()
+				if callee == nil {
+					continue
+				}
+				idx := -1
+				switch {
+				case fnPkgPath(callee) == modPath && (callee.Name() == "EVAL" || callee.Name() == "eval_ast"):
+					idx = 1
+				case fnPkgPath(callee) == modPath+"/types" && callee.Name() == "Apply":
+					idx = 1
+				}
+				if idx < 0 {
+					continue
+				}
+				n++
+				bad := derives(c.Call.Args[idx], 0, map[ssa.Value]bool{})
+				if idx == 1 && callee.Name() == "Apply" && len(c.Call.Args) > 2 {
+					bad = bad || derives(c.Call.Args[2], 0, map[ssa.Value]bool{})
+				}
+				r.check(!bad, "C18.engine", fn, "form evaluated by the debugger engine", c.Pos(), "not derived from the form being stepped (a user-typed expression)", "the engine evaluates (or expands) the form it was handed: its effects happen twice while a stepper is installed")
+			}
+		}
+	}
+	r.floor("C18.engine", "evaluating calls in package debugger", n, 1)
 }
